@@ -53,6 +53,12 @@ func NewClient(addr string, ctype ClientType, queueSize int, flushInterval time.
 
 func (c *client) Dial(ctx context.Context) error {
 	c.dialOnce.Do(func() {
+		select {
+		case <-c.done:
+			// closed before it was ever dialed: nothing to connect
+			return
+		default:
+		}
 		conn, err := c.dialer(ctx, "tcp", c.addr)
 		if err != nil {
 			c.fail(fmt.Errorf("failed to dial RegionServer: %s", err))
@@ -64,6 +70,15 @@ func (c *client) Dial(ctx context.Context) error {
 		c.conn = conn
 		c.connM.Unlock()
 		vhook("dial.published", c, nil)
+
+		select {
+		case <-c.done:
+			// Close() (or a failure) ran while we were dialing and could
+			// not see the connection yet: close it here.
+			conn.Close()
+			return
+		default:
+		}
 
 		// time out send hello if it take long
 		if deadline, ok := ctx.Deadline(); ok {
